@@ -954,7 +954,9 @@ class Simplifier(pysmt.walkers.DagWalker):
         s, i = args
         if s.is_string_constant() and i.is_int_constant():
             i_value = cast(int, i.constant_value())
-            res = cast(str, s.constant_value())[i_value:i_value + 1]
+            res = ""
+            if i_value >= 0:
+                res = cast(str, s.constant_value())[i_value:i_value + 1]
             return self.manager.String(res)
         return self.manager.StrCharAt(s, i)
 
@@ -968,11 +970,13 @@ class Simplifier(pysmt.walkers.DagWalker):
     def walk_str_indexof(self, formula: FNode, args: List[FNode], **kwargs) -> FNode:
         s, t, i = args
         if s.is_string_constant() and t.is_string_constant() and i.is_int_constant():
-            idx = cast(str, s.constant_value()).find(
-                cast(str, t.constant_value()),
-                cast(int, i.constant_value()),
-            )
-            # idx = -1, if t is not found
+            idx = -1
+            if cast(int, i.constant_value()) >= 0:
+                idx = cast(str, s.constant_value()).find(
+                    cast(str, t.constant_value()),
+                    cast(int, i.constant_value()),
+                )
+            # idx = -1, if t is not found or i is out of range
             return self.manager.Int(idx)
         return self.manager.StrIndexOf(s, t, i)
 
@@ -990,7 +994,9 @@ class Simplifier(pysmt.walkers.DagWalker):
         if s.is_string_constant() and i.is_int_constant() and j.is_int_constant():
             start_ = cast(int, i.constant_value())
             end_ = cast(int, i.constant_value()) + cast(int, j.constant_value())
-            res = cast(str, s.constant_value())[start_:end_]
+            res = ""
+            if start_ >= 0 and end_ > start_:
+                res = cast(str, s.constant_value())[start_:end_]
             return self.manager.String(res)
         return self.manager.StrSubstr(s, i, j)
 
@@ -1009,10 +1015,11 @@ class Simplifier(pysmt.walkers.DagWalker):
     def walk_str_to_int(self, formula: FNode, args: List[FNode], **kwargs) -> FNode:
         s = args[0]
         if s.is_string_constant():
-            try:
-                return self.manager.Int(int(s.constant_value()))
-            except ValueError:
-                return self.manager.Int(-1)
+            s_value = cast(str, s.constant_value())
+            # Only non-empty sequences of ASCII digits denote a natural number
+            if s_value != "" and all(c in "0123456789" for c in s_value):
+                return self.manager.Int(int(s_value))
+            return self.manager.Int(-1)
         return self.manager.StrToInt(s)
 
     def walk_int_to_str(self, formula: FNode, args: List[FNode], **kwargs) -> FNode:
